@@ -1130,6 +1130,118 @@ theorem push_accepted_wellformed (g : Graph) (p : PSet) (h : pushCheck g p = .no
   have := h4 f hf
   simpa using this
 
+/-! ## the table constructors, statement by statement -/
+
+theorem exec_append (p q : List Stmt) (s : St) :
+    exec (p ++ q) s = if (exec p s).2 = true then exec p s else exec q (exec p s).1 := by
+  induction p generalizing s with
+  | nil => simp [exec]
+  | cons st r ih =>
+      cases st with
+      | check ok =>
+          simp only [List.cons_append, exec]
+          by_cases hok : ok s = true
+          · simp only [hok, if_true]; exact ih s
+          · simp [hok]
+      | assign f =>
+          simp only [List.cons_append, exec]
+          exact ih (f s)
+
+theorem firstRow_ok (n : Nat) (h : 0 < n) : RowS (firstRow n) := by
+  have : firstRow n = identRow n 0 := rfl
+  rw [this]; exact identRow_ok n 0 h
+
+/-- `POMDP::Model(o, params…)` / `POMDP::SparseModel(o, params…)`: on top of a valid MDP part the default observation
+    function (everything emits observation 0) is valid, for every O ≥ 1 -/
+theorem pomdpBasic_valid (kb ko : Rep) (base : St) (O : Nat) (hO : 0 < O) (hv : Valid ⟨kb, kb⟩ base) :
+    Valid ⟨kb, ko⟩ (pomdpBasic base O) := by
+  refine ⟨hv.disc, hv.T, ?_⟩
+  intro m hm row hrow
+  simp only [pomdpBasic, List.mem_map, List.mem_range] at hm
+  obtain ⟨_, _, rfl⟩ := hm
+  simp only [List.mem_map, List.mem_range] at hrow
+  obtain ⟨_, _, rfl⟩ := hrow
+  exact rowP_of_RowS ko (firstRow_ok O hO)
+
+/-- `Model(s, a, t, r, d)` / `SparseModel(s, a, t, r, d)` = setDiscount; setTransitionFunction; setRewardFunction on a
+    fresh object: if no step throws the result is valid, for all sizes, tables and discounts (nan aside unless guarded) -/
+theorem ctor3D_valid (h : allValidateFirst = true) (k : Rep) (S A : Nat) (t r : Tab3) (d : XRat) (s : St)
+    (hd : discNanSafe = true ∨ d ≠ .nan) (hc : ctor3D k S A t r d = some s) : Valid ⟨k, k⟩ s := by
+  obtain ⟨hvd, ht3, _⟩ := vf_unpack h
+  unfold ctor3D at hc
+  simp only [exec_append] at hc
+  -- step 1: setDiscount
+  have e1 : exec (prog ⟨k, k⟩ (.setDiscount d)) (blank S A 0) =
+      if (discGuard k).eval d = true then (blank S A 0, true) else ({ blank S A 0 with disc := d }, false) := by
+    simp only [prog, hvd, exec_setter_true]
+    by_cases hg : (discGuard k).eval d = true <;> simp [hg]
+  by_cases hg : (discGuard k).eval d = true
+  · simp [e1, hg] at hc
+  · have hg' : (discGuard k).eval d = false := by simpa using hg
+    have hdisc : DiscOK d := by
+      by_cases hnan : d = .nan
+      · rcases hd with hn | hne
+        · subst hnan
+          simp only [discNanSafe, Bool.and_eq_true] at hn
+          cases k <;> simp_all
+        · exact absurd hnan hne
+      · exact discountOKfinite_sound _ (discGuard_ok k).1 d hnan hg'
+    simp only [e1, hg', Bool.false_eq_true, if_false] at hc
+    -- step 2: setTransitionFunction
+    set s1 : St := { blank S A 0 with disc := d } with hs1
+    have e2 : exec (prog ⟨k, k⟩ (.setT3D t)) s1 = step ⟨k, k⟩ s1 (.setT3D t) := rfl
+    rw [e2] at hc
+    by_cases hacc : (step ⟨k, k⟩ s1 (.setT3D t)).2 = true
+    · simp [hacc] at hc
+    · have hacc' : (step ⟨k, k⟩ s1 (.setT3D t)).2 = false := by simpa using hacc
+      simp only [hacc', Bool.false_eq_true, if_false] at hc
+      have hrows := accepted_tables_are_distributions h ⟨k, k⟩ s1 t hacc'
+      have hkeep : (step ⟨k, k⟩ s1 (.setT3D t)).1.disc = d ∧ (step ⟨k, k⟩ s1 (.setT3D t)).1.Om = [] := by
+        simp only [step, prog, ht3, exec_setter_true]
+        split <;> simp [s1, blank]
+      -- step 3: setRewardFunction never throws and touches only R
+      simp only [prog, exec] at hc
+      simp only [Bool.false_eq_true, if_false, Option.some.injEq] at hc
+      subst hc
+      exact ⟨by simpa [hkeep.1] using hdisc, hrows, by intro m hm; simp [hkeep.2] at hm⟩
+
+/-- observation part of the converting constructors: accepted rows are distributions and every entry is the source's
+    (exactly for dense storage, through the threshold for sparse storage) -/
+theorem copyObs_preserves (k : Rep) (base : St) (O : Nat) (om : Tab3) (s : St) (h : copyObs k base O om = some s) :
+    s.T = base.T ∧ s.R = base.R ∧ s.disc = base.disc ∧
+    (∀ a < base.A, ∀ x < base.S, ∀ o < O, get3 s.Om a x o = storeP k (get3 om x a o)) ∧
+    RowsOK (match k with | .dense => RowS | .sparse => RowDist 0 tol) s.Om := by
+  cases k with
+  | dense =>
+      simp only [copyObs] at h
+      split at h
+      · rename_i hall
+        simp only [Option.some.injEq] at h
+        subst h
+        refine ⟨rfl, rfl, rfl, ?_, ?_⟩
+        · intro a ha x hx o ho; exact get3_mk3 _ _ _ _ _ _ _ ha hx ho
+        · apply rowsOK_mk3
+          intro a ha x hx
+          simp only [List.all_eq_true, List.mem_range] at hall
+          exact (isProbLoop_iff _).1 (by simpa [rowOf] using hall a ha x hx)
+      · cases h
+  | sparse =>
+      simp only [copyObs] at h
+      split at h
+      · rename_i hall
+        simp only [Option.some.injEq] at h
+        subst h
+        refine ⟨rfl, rfl, rfl, ?_, ?_⟩
+        · intro a ha x hx o ho; exact get3_mk3 _ _ _ _ _ _ _ ha hx ho
+        · apply rowsOK_mk3
+          intro a ha x hx
+          simp only [List.all_eq_true, List.mem_range, Bool.and_eq_true] at hall
+          obtain ⟨h1, h2⟩ := hall a ha x hx
+          have := sparse_copy_row sparseObsEntryGuard sparseEntryGuard_ok.2.1 sparseEntryGuard_ok.2.2.2 (rowOf om x a O)
+            (by rw [List.all_eq_true]; exact h1) (by simpa using h2)
+          simpa [rowOf, List.map_map, Function.comp_def] using this
+      · cases h
+
 /-! ## OBLIGATIONS over the generated order facts (re-opened by any reordering in the source) -/
 
 /-- in every setter of the four model classes, every `throw` precedes the first write -/
